@@ -3,6 +3,7 @@ import ServiceModel.Properties.C08
 import ServiceModel.Proofs.NoSlash
 import ServiceModel.Proofs.CountEq
 import ServiceModel.Proofs.CbCount
+import ServiceModel.Proofs.OnceRestart
 /-!
 # C12 — Batch bookkeeping and module callbacks are exact (state part)
 -/
@@ -168,5 +169,13 @@ theorem callbacks_match_batches (hc : CfgOK cfg p) {s : State} {n : CtxId → Na
 /-- No callback is ever invoked for a context id that was never created. -/
 theorem no_callback_without_context (hc : CfgOK cfg p) {s : State} {n : CtxId → Nat} (hr : CReach cfg p h0 t0 s n)
     (c : CtxId) (hu : c ∉ s.usedIds) : n c = 0 := (cbok_reachable hc hr).1 c hu
+
+/-- The counters are exact in every state of a chain that goes through any number of zero-height restarts as well (a
+    restart leaves no batch running; the batches issued afterwards are counted like any other): pending + answered =
+    issued for the batch in flight, a running batch has its expiry pending, and a pending request's batch is running. -/
+theorem counters_exact_across_restarts (hc : CfgOK cfg p) {s : State} (hr : ReachableR cfg p h0 t0 s)
+    (c : CtxId) (x : Ctx) (hx : Map.get s.ctxs c = some x) (hb : x.bstate = .running) :
+    (s.activeI.filter (fun r => r.ctx = c)).length + x.respN = x.reqN ∧ (Map.get s.expH c).isSome :=
+  ⟨ceq_reachableR hc hr c x hx hb, (reachableR_invAll hc hr).inv.x.bRunExp c x hx hb⟩
 
 end SM.C12
